@@ -306,6 +306,12 @@ func (b *Builder) IfFeature(o interface{}, expression string) *IfFeature {
 	} else {
 		h.addIfFeature(&i)
 	}
+	// a malformed expression is an error wherever it stands, also where no feature
+	// configuration ever evaluates it (under a statement that is itself disabled, or
+	// after an expression that is off)
+	if _, err := i.Evaluate(nil); err != nil {
+		b.setErr(err)
+	}
 	return &i
 }
 
